@@ -365,10 +365,14 @@ MUTABLE_DIRS = ["include/shark/Models", "include/shark/ObjectiveFunctions/Loss",
                 "include/shark/Algorithms/NearestNeighbors", "include/shark/LinAlg", "include/shark/Core/utility", "include/shark/Algorithms/Trainers/Impl"]
 
 
-def mutable_inventory(repo):
+def mutable_inventory(repo, dirs=None):
+    """`mutable` members, `const_cast`s and static data (function-local or class-level) in the headers below `dirs`
+    (directories or single files, relative to the repo; default: the component families of C20)"""
     res = []
-    for d in MUTABLE_DIRS:
-        for dp, dn, fn in os.walk(os.path.join(repo, d)):
+    for d in (MUTABLE_DIRS if dirs is None else dirs):
+        full = os.path.join(repo, d)
+        walk = [(os.path.dirname(full), [], [os.path.basename(full)])] if os.path.isfile(full) else os.walk(full)
+        for dp, dn, fn in walk:
             if "LinAlg/BLAS" in dp: continue
             for x in sorted(fn):
                 if not x.endswith((".h", ".hpp", ".inl", ".tpp")): continue
